@@ -4,6 +4,14 @@ import json, os
 V = os.path.dirname(os.path.dirname(os.path.abspath(__file__)))
 
 CHECKS = {
+    'C14': ('hole-provenance / sibling-agreement rules on entry-point templates + finite evaluation of the fragment target-count table (syn-based abstract interpreter)',
+            'Structural clauses: ENTRY_ constants for all entry points with value = exact name, and every helper builds the constant identifier with the same expression as the definition; compute items per Compute entry (constructor name, entry_point: Some(name) identity, module\'s own shader/layout, workgroup constant = components 0,1,2 in order); fragment helper per Fragment entry with target count = location+1 / max(location+1) over struct members / 0 (evaluated on representative result shapes and symbolically for structs); vertex helper per Vertex entry (buffer count by C07 rule D); vertex_state/fragment_state forward field-wise.',
+            'Trusted: Engine A semantics; wgpu addresses colour targets by @location.',
+            'DESIGN.md section 3 C14'),
+    'C16': ('hole-provenance rule on the SOURCE template (empty conversion chain) + MIR pass-through rule on the public wrappers',
+            'Decided structural clause only: SOURCE is the public wgsl_source parameter itself interpolated as one string literal, or include_str!(the given path unmodified), selected solely by the presence of the path; wrappers forward their parameters unchanged (MIR); create_shader_module hands Cow::Borrowed(SOURCE) to ShaderSource::Wgsl; the parsed text is the same parameter. The escaping/printing round-trip of arbitrary strings through proc-macro2/syn/prettyplease/rustfmt is a library law and is NOT decided.',
+            'Trusted: proc-macro2 Literal::string escaping; syn/prettyplease/rustfmt preserve literal tokens.',
+            'DESIGN.md section 3 C16'),
     'C12': ('hole-provenance / predicate-agreement rules on the OverrideConstants templates and the entry helpers (syn-based abstract interpreter)',
             'Structural clauses: one field per override (unfiltered), name identity, scalar type table; Option<..>, the required list and the optional-insert list are all decided by the same atom init.is_some() with the right polarity; key = @id.to_string() else name for both lists; bool -> if x {1.0} else {0.0}, other scalars -> x as f64 with x the same override\'s field; map = required entries + optional inserts, returned; helper parameter / overrides.constants() / struct emission all iff the module has overrides (evaluated on all combinations); vertex_state/fragment_state forward &entry.constants.',
             'Trusted: Engine A semantics; naga\'s override resolution (keys by decimal id or name, f64 values).',
